@@ -151,9 +151,14 @@ def trimEndMatches (c : Char) (s : Str) : Str := (s.reverse.dropWhile (· == c))
 
 def isInt (x : Rat) : Bool := x.den == 1
 
+/-- the `0.0001` of `fstr` as the f32 it is compared in: 13743895 · 2⁻³⁷ = 0.0000999999974737875…
+    (`x.abs() < 0.0001` on f32; the f32 nearest to -0.0001 is therefore NOT below it and is written
+    "-0") -/
+def fstrZeroBelow : Rat := (13743895 : Rat) / 137438953472
+
 /-- svgdx `fstr` (types.rs) on the exact value. Integer fast path assumes |x| < 2^31. -/
 def fstr (x : Rat) : Str :=
-  if ratAbs x < (1 : Rat) / 10000 then ['0']
+  if ratAbs x < fstrZeroBelow then ['0']
   else if isInt x then intToStr x.num
   else trimEndMatches '.' (trimEndMatches '0' (fmt3 x))
 
